@@ -440,6 +440,15 @@ func c08InitPadSeeds() {
 			vrt.Fatalf("c08: cannot find seeds for all padding lengths")
 		}
 	}
+	// rand.Seed must really make the source deterministic.
+	for round := 0; round < 2; round++ {
+		for p := 1; p < responsePaddingMaxSize; p++ {
+			rand.Seed(c08PadSeeds[p])
+			if got := rand.Intn(responsePaddingMaxSize-1) + 1; got != p {
+				vrt.Fatalf("c08: math/rand is not deterministic after Seed: want %d, got %d", p, got)
+			}
+		}
+	}
 }
 
 // c08SeedRand makes the next padding length chosen by the code equal to pad.
